@@ -289,7 +289,12 @@ Proof.
   destruct (hand_out (cluster_sort (cluster s3)) (workers_sort (workers s3)) (busy s3) (inflight s3) o1)
     as [[[[cl' w'] b'] fl'] o2] eqn:H.
   apply hand_out_spec in H. destruct H as (k & Hk & E1 & E2 & E3 & E4 & E5).
-  cbn [fst]. unfold units. cbn [cluster inflight set_farm]. rewrite E1, E3.
+  unfold units.
+  match goal with |- context [fst (if ?b then ?X else ?Y)] =>
+    replace (cluster (fst (if b then X else Y))) with cl' by (destruct b; reflexivity);
+    replace (inflight (fst (if b then X else Y))) with fl' by (destruct b; reflexivity);
+    replace (ns (fst (if b then X else Y))) with (ns s3) by (destruct b; reflexivity) end.
+  rewrite E1, E3.
   assert (Fs : inflight s3 = inflight s) by (rewrite F3; unfold s2; cbn; exact F1).
   rewrite Fs. rewrite (map_app snd (inflight s)).
   rewrite (map_snd_combine (map fst (firstn k (workers_sort (workers s3)))) (firstn k (cluster_sort (cluster s3))))
